@@ -56,6 +56,8 @@ func TestC15Runnable(t *testing.T) {
 		"log.access.format":           {"common", "combined", "$remote_host $upstream_host:$upstream_port $time_common"},
 		"proxy.auth":                  {"", "name=b1;type=basic;file=" + htpasswd},
 		"tracing.TracingEnabled":      {"false"},
+		"tracing.SpanName":            {"{{.Proto}} {{.Method}} {{.Host}} {{.Scheme}} {{.Path}}", "{{ .Method", "{{.NoSuchField}}", "plain text", "{{", ""},
+		"tracing.SpanHost":            {"localhost:9998", ""},
 		"proxy.log.routes":            {"", "delta", "all"},
 		// several listeners share the process-wide options (nothing is bound here)
 		"proxy.addr": {":19999", ":19999,:19998", ":19999;proto=http,:19998;proto=grpc,:19997;proto=http,:19996;proto=tcp"},
